@@ -286,6 +286,8 @@ def c06_f(ctx: Ctx):
     if not any(r.detail.startswith("$not") for r in out):
         out.append(ctx.inc(R, f, f.node, "$not complement shape not recognised"))
     ors = [c for c in body_nodes(f) if isinstance(c, ast.Call) and isinstance(c.func, ast.Attribute) and c.func.attr in ("update", "union") and "or_results" in canon(c.func.value)]
+    ors += [c for c in body_nodes(f) if isinstance(c, ast.AugAssign) and isinstance(c.op, ast.BitOr) and "or_results" in canon(c.target)]
+    ors += [c for c in body_nodes(f) if isinstance(c, ast.BinOp) and isinstance(c.op, ast.BitOr) and "or_results" in canon(c)]
     if ors:
         out.append(ctx.ok(R, f, ors[0], "$or unites the operand results"))
     else:
